@@ -102,8 +102,11 @@ func (e *c06Env) encode(tc *c06Case) (stream []byte, ends []int, msgs []proto.Me
 		case "grpc+json":
 			js, _ := protojson.Marshal(m)
 			enc = wire.GRPCFrame(0, js)
-		case "http-json":
+		case "http-json", "http-json-gzip":
 			enc, _ = protojson.Marshal(m)
+		case "http-proto-gzip":
+			pb, _ := proto.Marshal(m)
+			enc = append(refVarint(uint64(len(pb))), pb...)
 		case "http-proto":
 			pb, _ := proto.Marshal(m)
 			enc = append(refVarint(uint64(len(pb))), pb...)
@@ -120,6 +123,14 @@ func (e *c06Env) encode(tc *c06Case) (stream []byte, ends []int, msgs []proto.Me
 		}
 		stream = append(stream, enc...)
 		ends = append(ends, len(stream))
+	}
+	if tc.Transport == "http-json-gzip" || tc.Transport == "http-proto-gzip" {
+		// the whole request body is one gzip stream (Content-Encoding: gzip); message boundaries
+		// are not visible on the wire, so these transports are run complete only (no truncation)
+		stream = gzipBytes(stream)
+		for i := range ends {
+			ends[i] = len(stream)
+		}
 	}
 	return
 }
@@ -215,6 +226,11 @@ func (e *c06Env) exec(tc *c06Case) c06Result {
 		res = doHTTP(m, "POST", route, "", http.Header{"Content-Type": {"application/json"}}, body)
 	case "http-proto":
 		res = doHTTP(m, "POST", route, "", http.Header{"Content-Type": {"application/protobuf"}}, body)
+	case "http-json-gzip":
+		codec = "json"
+		res = doHTTP(m, "POST", route, "", http.Header{"Content-Type": {"application/json"}, "Content-Encoding": {"gzip"}}, body)
+	case "http-proto-gzip":
+		res = doHTTP(m, "POST", route, "", http.Header{"Content-Type": {"application/protobuf"}, "Content-Encoding": {"gzip"}}, body)
 	case "ws", "ws-frag":
 		codec = "json"
 		res = doWS(m, wsRoute, "", nil, wireBytes, sc)
@@ -282,7 +298,7 @@ func (e *c06Env) exec(tc *c06Case) c06Result {
 	}
 	var payloads [][]byte
 	switch tc.Transport {
-	case "http-json":
+	case "http-json", "http-json-gzip":
 		var err error
 		payloads, err = splitJSONStream(res.Body)
 		if tc.Shape == "cs" {
@@ -291,7 +307,7 @@ func (e *c06Env) exec(tc *c06Case) c06Result {
 		if err != nil {
 			return fail("response-framing", err.Error()+": "+truncS(string(res.Body), 120))
 		}
-	case "http-proto":
+	case "http-proto", "http-proto-gzip":
 		var err error
 		payloads, err = splitVarintStream(res.Body)
 		if tc.Shape == "cs" {
@@ -489,8 +505,11 @@ func c06Bases(thorough bool) []c06Base {
 		seqs = append(seqs, []int{300})
 	}
 	outs := [][]int{{}, {0}, {3}, {3, 0, 70}}
-	for _, tr := range []string{"grpc", "grpc-gzip", "grpc+json", "web", "web-gzip", "webtext", "http-json", "http-proto", "ws", "ws-frag"} {
+	for _, tr := range []string{"grpc", "grpc-gzip", "grpc+json", "web", "web-gzip", "webtext", "http-json", "http-proto", "http-json-gzip", "http-proto-gzip", "ws", "ws-frag"} {
 		for _, sh := range []string{"cs", "bidi", "pingpong", "ss"} {
+			if strings.HasSuffix(tr, "-gzip") && strings.HasPrefix(tr, "http-") && sh == "ss" {
+				continue // a unary gzip body is C03's subject
+			}
 			if isWS(tr) && sh == "cs" {
 				continue // a WebSocket client can only end its stream by closing, which also ends the reply channel
 			}
@@ -549,7 +568,7 @@ func isWS(transport string) bool { return transport == "ws" || transport == "ws-
 
 func runC06(c *Ctx) {
 	r := c.Run
-	r.Rule("transport{gRPC identity/gzip/+json, gRPC-web identity/gzip, gRPC-web-text, HTTP JSON stream, HTTP varint-delimited protobuf, HttpBody chunking (limits 4, 8, 64; uploads of every length 0..3·limit+1), AsHTTPBodyReader/Writer passthrough, WebSocket with whole and with fragmented (2-4 frames) messages} × shape{client-, server-, bidi batch, bidi ping-pong} × client sequence (0..3 messages, payloads 0/1/5/300) × handler sequence (0..3 replies) × read schedule (all 2^(n-1) partitions for streams <= 10 (thorough 13) bytes; uniform chunk sizes, every single cut and every pair of cuts (bounded) beyond) × EOF convention × truncation at every offset followed by EOF or a connection error; states = (transport, bytes consumed, messages delivered); distinct = (transport, shape, sequence) bases")
+	r.Rule("transport{gRPC identity/gzip/+json, gRPC-web identity/gzip, gRPC-web-text, HTTP JSON stream, HTTP varint-delimited protobuf, both also inside a gzip Content-Encoding (complete streams only), HttpBody chunking (limits 4, 8, 64; uploads of every length 0..3·limit+1), AsHTTPBodyReader/Writer passthrough, WebSocket with whole and with fragmented (2-4 frames) messages} × shape{client-, server-, bidi batch, bidi ping-pong} × client sequence (0..3 messages, payloads 0/1/5/300) × handler sequence (0..3 replies) × read schedule (all 2^(n-1) partitions for streams <= 10 (thorough 13) bytes; uniform chunk sizes, every single cut and every pair of cuts (bounded) beyond) × EOF convention × truncation at every offset followed by EOF or a connection error; plus 3-message streams whose 1st/2nd/3rd message exceeds a receive limit of 40 with a field boundary exactly at the limit (9 transports); states = (transport, bytes consumed, messages delivered); distinct = (transport, shape, sequence) bases")
 	r.Assume("an empty client stream is sent as an empty chunked body (Content-Length unknown)", "client-streaming with a unary reply over WebSocket is excluded: the only way for a WebSocket client to end its stream is to close, which also ends the reply channel", "HTTP/2 flow control and real half-close are seen only in the conformance runs")
 	fullMax := 10
 	if c.Thorough() {
@@ -622,6 +641,9 @@ func runC06(c *Ctx) {
 			}
 			// truncation at every offset
 			for t := 0; t < n; t++ {
+				if strings.HasPrefix(b.Transport, "http-") && strings.HasSuffix(b.Transport, "-gzip") {
+					break // one gzip stream: message boundaries are not wire offsets
+				}
 				if b.Shape == "ss" && strings.HasPrefix(b.Transport, "http-") {
 					break // a unary request body has no framing: a truncated message is not detectable
 				}
@@ -659,13 +681,112 @@ func runC06(c *Ctx) {
 	}
 	r.AddStates(int64(len(states)))
 	r.AddValidated(r.Evaluations())
+	c06LimitInStream(c)
 	runC06Conformance(c)
 	r.Set("validation_note", "every read schedule is executed on the real Mux (no separate model of larking); the environment model (recorder, scripted body, scripted WebSocket conn) is validated against net/http and grpc-go by the conformance pass (see C05/C10 evidence)")
 	r.Set("full_partition_max_stream_len", fullMax)
 	_ = strings.Join
 }
 
+// c06LimitInStream: a stream whose middle message exceeds the receive limit (and whose first
+// `limit` encoded bytes are complete fields, so a reader that stops at the limit still sees a
+// well-formed message): the handler gets the preceding message, then an error - never a
+// shortened message, never a clean end, never the messages after it.
+func c06LimitInStream(c *Ctx) {
+	r := c.Run
+	const L = 40
+	e := newC06Env()
+	m, impl := e.mux(L)
+	small := func(i int) proto.Message { return e.t.newReq("", []byte(fmt.Sprintf("m%d", i)), 0) }
+	big := e.t.newReq(strings.Repeat("x", L-2), []byte("yyy"), 0) // field s ends exactly at byte L of the protobuf encoding
+	for _, tr := range []string{"grpc", "grpc-gzip", "web", "web-gzip", "webtext", "grpc+json", "http-proto", "http-json", "ws"} {
+		for _, pos := range []int{0, 1, 2} {
+			msgs := []proto.Message{small(0), small(1), small(2)}
+			msgs[pos] = big
+			var body []byte
+			for _, mm := range msgs {
+				pb, _ := proto.Marshal(mm)
+				// protobuf-go may emit s and b in either order for a dynamic message: force s first
+				if mm == big {
+					pb = append(append([]byte{0x0a, L - 2}, []byte(strings.Repeat("x", L-2))...), 0x12, 3, 'y', 'y', 'y')
+				}
+				js, _ := protojson.Marshal(mm)
+				switch tr {
+				case "grpc", "web", "webtext":
+					body = append(body, wire.GRPCFrame(0, pb)...)
+				case "grpc-gzip", "web-gzip":
+					body = append(body, wire.GRPCFrame(1, gzipBytes(pb))...)
+				case "grpc+json":
+					body = append(body, wire.GRPCFrame(0, js)...)
+				case "http-proto":
+					body = append(append(body, refVarint(uint64(len(pb)))...), pb...)
+				case "http-json":
+					body = append(body, js...)
+				case "ws":
+					body = append(body, wsText(js)...)
+				}
+			}
+			impl.reset(hScript{RecvN: -1})
+			var res *callResult
+			switch tr {
+			case "grpc":
+				res = doGRPC(m, "/vs.T/CS", "application/grpc", nil, reqBody{Data: body})
+			case "grpc-gzip":
+				res = doGRPC(m, "/vs.T/CS", "application/grpc", http.Header{"Grpc-Encoding": {"gzip"}}, reqBody{Data: body})
+			case "grpc+json":
+				res = doGRPC(m, "/vs.T/CS", "application/grpc+json", nil, reqBody{Data: body})
+			case "web":
+				res = doWeb(m, "/vs.T/CS", "application/grpc-web+proto", nil, reqBody{Data: body})
+			case "web-gzip":
+				res = doWeb(m, "/vs.T/CS", "application/grpc-web+proto", http.Header{"Grpc-Encoding": {"gzip"}}, reqBody{Data: body})
+			case "webtext":
+				res = doWeb(m, "/vs.T/CS", "application/grpc-web-text", nil, reqBody{Data: body})
+			case "http-proto":
+				res = doHTTP(m, "POST", "/t/cs", "", http.Header{"Content-Type": {"application/protobuf"}}, reqBody{Data: body, CL: -1})
+			case "http-json":
+				res = doHTTP(m, "POST", "/t/cs", "", http.Header{"Content-Type": {"application/json"}}, reqBody{Data: body, CL: -1})
+			case "ws":
+				impl.reset(hScript{RecvN: 3})
+				res = doWS(m, "/ws/bidi", "", nil, append(body, wsClose(1000, "")...), nil)
+			}
+			r.Eval(1)
+			key := fmt.Sprintf("limit-in-stream transport=%s over-limit-message-at=%d limit=%d", tr, pos, L)
+			cs := map[string]any{"transport": tr, "limit": L, "over_limit_message_at": pos, "messages": 3}
+			lg := impl.log
+			bad := ""
+			switch {
+			case res.Panicked:
+				bad = "panic: " + res.Panic
+			case len(lg.Recv) != pos:
+				bad = fmt.Sprintf("the handler received %d messages, want the %d before the over-limit one (then err=%v)", len(lg.Recv), pos, lg.RecvErr)
+				if len(lg.Recv) > pos {
+					bad += fmt.Sprintf("; message %d as delivered: {%v}", pos, lg.Recv[pos])
+				}
+			case lg.Calls == 1 && (lg.RecvErr == nil || lg.RecvErr == io.EOF):
+				bad = fmt.Sprintf("after %d messages the handler got err=%v, want an error for the over-limit message", pos, lg.RecvErr)
+			}
+			if bad != "" {
+				r.Outcome("FAIL:limit-in-stream")
+				r.Violation(report.Violation{Oracle: "limit-in-stream", Key: key, Case: cs, Note: bad})
+				continue
+			}
+			r.Outcome("ok:" + tr + ":limit-in-stream")
+			r.Distinct("limit-in-stream|" + tr)
+		}
+	}
+}
+
 func replayC06(c *Ctx, v report.Violation) {
+	if strings.HasPrefix(v.Key, "limit-in-stream") {
+		sub := *c
+		sub.Run = report.NewRun("C06", "quick", 0, "exploration")
+		c06LimitInStream(&sub)
+		fmt.Printf("replay: limit-in-stream family re-run -> %d violations\n", sub.Run.NumViolations())
+		if sub.Run.NumViolations() > 0 {
+			c.Run.Violation(report.Violation{Oracle: v.Oracle, Key: v.Key, Case: v.Case, Note: "still violated"})
+		}
+		return
+	}
 	var tc c06Case
 	if !remarshal(v.Case, &tc) {
 		fmt.Println("replay: cannot decode case")
